@@ -181,7 +181,8 @@ class AxolotlManager(object):
             raise exceptions.NoSessionException()
         except InvalidKeyIdException:
             raise exceptions.InvalidKeyIdException()
-        except (InvalidMessageException, InvalidVersionException, LegacyMessageException, DecodeError):
+        except (InvalidMessageException, InvalidVersionException, LegacyMessageException, DecodeError, ValueError):
+            # ValueError: the curve library refusing a damaged key inside the message
             raise exceptions.InvalidMessageException()
         except DuplicateMessageException:
             raise exceptions.DuplicateMessageException()
@@ -199,7 +200,8 @@ class AxolotlManager(object):
             raise exceptions.NoSessionException()
         except InvalidKeyIdException:
             raise exceptions.InvalidKeyIdException()
-        except (InvalidMessageException, InvalidVersionException, LegacyMessageException, DecodeError):
+        except (InvalidMessageException, InvalidVersionException, LegacyMessageException, DecodeError, ValueError):
+            # ValueError: the curve library refusing a damaged key inside the message
             raise exceptions.InvalidMessageException()
         except DuplicateMessageException:
             raise exceptions.DuplicateMessageException()
